@@ -6,6 +6,12 @@
   `numpy.random.normal(0, noise_level)` is an INPUT `ν` of the model, so every theorem
   holds for every draw.  Arithmetic follows the source operation by operation so that the
   `Float` instance reproduces the implementation's doubles.
+
+  Error paths: `ValueError` for the guards the code has (`V ≤ 0`, `T ≤ 0`, `init > capacity`,
+  `ts ∉ [0,1)`), and `ZeroDivisionError` where Python's float division raises before anything is
+  written (capacity 0; max power 0 in the continuous calculation with a non-zero pilot).
+  Histories: `Op`, `applyOp`, `runOps`, `finalState` (a failing call leaves the state alone).
+  Used by C03 (bounds), C14 (laws), C13 and the simulator model (through `Evse.Ev.charge`).
 -/
 import AcnModel.Num
 
